@@ -127,7 +127,7 @@ func genHash(r *vh.Rng, th bool) []Case {
 	var out []Case
 	n := 70
 	if th {
-		n = 2500
+		n = 800
 	}
 	for i := 0; i < n; i++ {
 		rr := r.Fork()
